@@ -11,6 +11,7 @@ import (
 	"github.com/ipld/go-ipld-prime/linking"
 	cidlink "github.com/ipld/go-ipld-prime/linking/cid"
 	"github.com/ipld/go-ipld-prime/node/basicnode"
+	"github.com/ipld/go-ipld-prime/schema"
 	"github.com/ipld/go-ipld-prime/storage/memstore"
 	mh "github.com/multiformats/go-multihash"
 
@@ -84,6 +85,64 @@ type c05item struct {
 	lp    cidlink.LinkPrototype
 	lnk   datamodel.Link
 	codec uint64
+	// typed: the same data-model value presented by a schema-typed node (reflection binding), at type level or as its
+	// representation view; nil for plain values
+	typed func() (datamodel.Node, error)
+	how   string
+}
+
+// c05Typed draws a schema type and an inhabitant and returns the data-model value a typed node of it presents (at type
+// level, or of its representation view) together with a constructor of that node.  ok=false when the draw is unusable
+// (absent fields at type level have no encoding; a value without representation).
+func c05Typed(r *core.Rand, jsonDomain bool) (v core.Val, mk func() (datamodel.Node, error), how string, ok bool) {
+	cfg := core.DefaultSchemaCfg
+	cfg.NullableDispatchUnion, cfg.KindedIntEnum, cfg.TupleLooseOptional, cfg.UnionAnyMember, cfg.EnumEmptyRename = 0, 0, 0, 0, 0
+	t := core.GenSchema(r, cfg)
+	sc, err := newSchemaCase(t)
+	if err != nil {
+		return v, nil, "", false
+	}
+	tv := core.GenInhabitant(t, r, cfg, jsonDomain)
+	build := func() (schema.TypedNode, error) {
+		nb, err := sc.Eng.NewTypeBuilder(t.Name)
+		if err != nil {
+			return nil, err
+		}
+		if err := core.Assemble(nb, core.TypeInput(tv), nil); err != nil {
+			return nil, err
+		}
+		tn, ok := nb.Build().(schema.TypedNode)
+		if !ok {
+			return nil, fmt.Errorf("not a typed node")
+		}
+		return tn, nil
+	}
+	tn, err := build()
+	if err != nil {
+		return v, nil, "", false
+	}
+	if r.Bool() {
+		// type-level view
+		if strings.Contains(" "+tv.Term()+" ", " a ") {
+			return v, nil, "", false
+		}
+		got, err := core.ReadNode(tn)
+		if err != nil {
+			return v, nil, "", false
+		}
+		return got, func() (datamodel.Node, error) { return build() }, "bindnode type-level node of " + t.Tokens(), true
+	}
+	got, err := readNodeSafe(tn.Representation())
+	if err != nil {
+		return v, nil, "", false
+	}
+	return got, func() (datamodel.Node, error) {
+		tn, err := build()
+		if err != nil {
+			return nil, err
+		}
+		return tn.Representation(), nil
+	}, "bindnode representation node of " + t.Tokens(), true
 }
 
 func c05Case(c *core.Ctx, r *core.Rand, idx int) error {
@@ -147,10 +206,23 @@ func c05Case(c *core.Ctx, r *core.Rand, idx int) error {
 				gc = 0x71
 			}
 			v := genForCodec(r, gc)
-			items = append(items, c05item{v: v, codec: code, lp: cidlink.LinkPrototype{Prefix: cid.Prefix{Version: ver, Codec: code, MhType: hcode, MhLength: mhLen}}})
+			it := c05item{v: v, codec: code, lp: cidlink.LinkPrototype{Prefix: cid.Prefix{Version: ver, Codec: code, MhType: hcode, MhLength: mhLen}}}
+			if (gc == 0x71 || gc == 0x0129) && r.Chance(1, 4) {
+				if tv, mk, how, ok := c05Typed(r, gc == 0x0129); ok && !(gc == 0x0129 && strings.Contains(tv.Term(), " d")) {
+					it.v, it.typed, it.how = tv, mk, how
+					c.Dist("node:typed")
+				}
+			}
+			items = append(items, it)
 		}
 		it := &items[r.Intn(len(items))]
-		build := func(v core.Val) (datamodel.Node, error) { return buildVariant(v, r) }
+		build := func(v core.Val) (datamodel.Node, error) {
+			if it.typed != nil && r.Bool() {
+				hist = append(hist, "("+it.how+")")
+				return it.typed()
+			}
+			return buildVariant(v, r)
+		}
 		switch k := r.Intn(7); {
 		case k <= 1 || it.lnk == nil: // store (possibly a different insertion order of the same value)
 			v := it.v
